@@ -160,6 +160,9 @@ def _path(ctx, params):
     if params.get("checkpoint"):
         ck, ck_info = make_checkpoint(ctx, W, prob, params)
         cfg["checkpoint"] = ck
+        # the way a user restarts: x0 is the very array of the result it restarts from
+        cfg["x0"] = ck["x"]
+        ck_before = orch.snapshot_state(ck)
     run.execute(cfg)
     groups = params.get("groups", ["C03", "C04", "C05", "C18"])
     info = {k: v for k, v in params.items() if k not in ("groups",)}
@@ -209,6 +212,10 @@ def _path(ctx, params):
         if params.get("gtol_kind") == "callable":
             ctx.check("C04.gtol_called_once", run.gtol_calls != 1, info=dict(info, calls=run.gtol_calls))
     # ------------------------------------------------------------------ C05
+    if "C05" in groups and ck_info is not None and not early_return_ck:
+        # a chain of restarts: the result the run was started from still describes its own point afterwards
+        v, struct = orch.diff_snap(ck_before, orch.snapshot_state(cfg["checkpoint"]), fields=("x", "fun", "jac", "nfev", "njev", "nit", "sk", "yk"))
+        ctx.check("C05.earlier_result_of_the_chain_untouched", v, info=dict(info, structural=struct))
     if "C05" in groups:
         any_grad = (len(run.gcalls) > 0 or ck_info is not None) if callable_grad else (len(run.fd_calls) > 0 or ck_info is not None)
         if any_grad:
